@@ -272,8 +272,10 @@ class Engine:
             return z3.BoolVal(True)
         # unknown static type: dispatch on the tag
         ref = get_ref(v.t)
-        is_l = z3.Or(TYP(ref) == class_id("list"), TYP(ref) == class_id("tuple"))
-        is_d = z3.Or(TYP(ref) == class_id("dict"), TYP(ref) == class_id("set"))
+        lk = ["list", "tuple"] + [c for c, k in self.reg.classes.items() if k.kind in ("list", "tuple")]
+        dk = ["dict", "set"] + [c for c, k in self.reg.classes.items() if k.kind in ("dict", "set")]
+        is_l = z3.Or([TYP(ref) == class_id(c) for c in lk])
+        is_d = z3.Or([TYP(ref) == class_id(c) for c in dk])
         return z3.If(is_none(v.t), False,
                z3.If(is_bool(v.t), get_b(v.t),
                z3.If(is_int(v.t), get_i(v.t) != 0,
